@@ -121,6 +121,9 @@ pub fn judge<U: OutElem>(
             Verdict::Ok => {
                 if matches!(e, Expect::Null | Expect::NullTag(_)) {
                     ctx.count(&format!("null.{fname}"));
+                } else if matches!(e, Expect::OneOf(a) if matches!(a.as_slice(), [Expect::Null, Expect::Approx { v, .. }] if *v == 0.0)) {
+                    // constant window under a guaranteed EPS floor: only the attainable range is judged
+                    ctx.count(&format!("constant_window_in_range.{fname}"));
                 } else {
                     compared += 1;
                     ctx.count(&format!("value.{fname}"));
